@@ -3,6 +3,8 @@
 the outcome in seeded/<id>/meta.json and seeded/RESULTS.md."""
 import os, sys, json, subprocess, glob, re
 ROOT = os.path.dirname(os.path.dirname(os.path.abspath(__file__)))
+# default: /repo itself (apply, check, checkout); SEED_REPO=<scratch worktree of /repo's HEAD> lets the matrix run beside other work
+R = os.environ.get("SEED_REPO", "/repo")
 # which checks are expected to see a seed (first = own property); derived from what the change breaks
 ALSO = {"C01-2": ["C11"], "C02-2": ["C01"], "C09-1": ["C04"], "C09-2": ["C12"], "C10-1": ["C01"], "C19-2": ["C07"], "C13-1": [], "C06-2": ["C05"],
         "C01-3": ["C11"], "C08-3": ["C07"], "C09-4": ["C10"], "C10-3": ["C01", "C02"], "C13-3": ["C15"], "C18-3": ["C08"],
@@ -29,8 +31,8 @@ def main():
         meta.update({"id": sid, "property": prop, "patch": os.path.basename(patch),
                      "origin": "independent sub-agent given only the property text and a scratch worktree",
                      "confirmed": "patch applies, builds warning-free with the repository's CMake recipe, 88/88 tests pass, demo fails with the patch and passes without (tools/confirm_seed.sh)"})
-        sh("git -C /repo checkout -- .")
-        out = sh("git -C /repo apply %s" % patch)
+        sh("git -C %s checkout -- ." % R)
+        out = sh("git -C %s apply %s" % (R, patch))
         if out.strip():
             meta["detection"] = {"error": "patch does not apply to the current (repaired) tree: " + out.strip()[:200]}
             json.dump(meta, open(meta_p, "w"), indent=1)
@@ -39,12 +41,12 @@ def main():
         det = {}
         for chk in [prop] + ALSO.get(sid, []):
             tier = TIER.get("%s/%s" % (sid, chk), "quick")
-            o = sh("timeout 900 python3 %s/bin/verif check %s --tier %s" % (ROOT, chk, tier))
+            o = sh("VERIF_REPO=%s timeout 900 python3 %s/bin/verif check %s --tier %s" % (R, ROOT, chk, tier))
             viol = re.findall(r"^VIOLATION property=(\w+)", o, re.M)
             first = re.search(r"^VIOLATION.*\n  (.*)$", o, re.M)
             det[chk] = {"tier": tier, "violations_reported": len(viol), "detected": bool(viol),
                         "first": (first.group(1)[:300] if first else None), "infra_error": "INFRASTRUCTURE" in o}
-        sh("git -C /repo checkout -- .")
+        sh("git -C %s checkout -- ." % R)
         meta["detection"] = det
         json.dump(meta, open(meta_p, "w"), indent=1)
         rows.append((sid, ", ".join("%s:%s" % (k, "DETECTED" if v["detected"] else "missed") for k, v in det.items()), (det[prop]["first"] or "")[:110]))
